@@ -58,12 +58,41 @@ func minerPoolHistory(t *testing.T, prop string) {
 		rewardedPools := map[string]bool{}
 		chains, killsThenRewards := 0, 0
 		steps := rapid.IntRange(10, vkit.Scale(40, 80)).Draw(t, "steps")
+		// a wallet that holds just enough for a stake but not for the fee on top of it: its top-up passes the contract
+		// and is then dropped by the chain at the fee transfer
+		tight := sim.NewWallet("tight", 0)
+		h.Know(tight.ID, tight.Name)
+		var queue []string
+		var scriptNode *simminer.Node
 		for i := 0; i < steps; i++ {
-			op := rapid.SampledFrom([]string{"stake", "stake", "stake", "unstake", "unstake", "collect", "block", "block", "block", "settings", "kill", "unstakeRewarded"}).Draw(t, "op")
+			op := rapid.SampledFrom([]string{"stake", "stake", "stake", "unstake", "unstake", "collect", "block", "block", "block", "settings", "kill", "unstakeRewarded", "tightScript"}).Draw(t, "op")
 			n := nodes[rapid.IntRange(0, len(nodes)-1).Draw(t, "node")]
+			if len(queue) > 0 {
+				op, queue, n = queue[0], queue[1:], scriptNode
+			}
 			before := nodesOf(t, h)
 			var txn *transaction.Transaction
 			switch op {
+			case "tightScript":
+				scriptNode, queue = n, []string{"tightFund", "tightStake", "tightTopUp", "tightUnstake"}
+				continue
+			case "tightFund":
+				need := uint64(3e10)
+				if have := sim.ViewOf(h.Cur.B).Balance(tight.ID); have < need {
+					txn = h.Tx(s.Clients[0], tight.ID, currency.Coin(need-have), 0, transaction.TxnTypeSend, "")
+				} else {
+					continue
+				}
+			case "tightStake":
+				txn = simminer.Stake(h, tight, n.Type, n.ID(), 1e10, 0)
+				op = "stake"
+			case "tightTopUp":
+				// the whole balance as value, plus a fee nothing is left for
+				txn = simminer.Stake(h, tight, n.Type, n.ID(), currency.Coin(sim.ViewOf(h.Cur.B).Balance(tight.ID)), 1)
+				op = "stake"
+			case "tightUnstake":
+				txn = simminer.Unstake(h, tight, n.Type, n.ID(), 0)
+				op = "unstake"
 			case "block":
 				// some fee-paying transactions, then the generator's payFees: rewards accrue
 				for k := rapid.IntRange(0, 3).Draw(t, "feeTxns"); k > 0; k-- {
@@ -156,6 +185,11 @@ func minerPoolHistory(t *testing.T, prop string) {
 				t.Fatalf("%s", err.Error())
 			}
 			if o.Rejected {
+				// a transaction the chain drops leaves no trace, whatever its contract call did before
+				if a2, s2 := nodesOf(t, h), h.Snap(); !reflect.DeepEqual(before, a2) || !reflect.DeepEqual(snapBefore.Bal, s2.Bal) {
+					t.Fatalf("%s", viol(prop, "dropped-transaction-changed-something", h, "%s on %s was dropped by the chain (%s) and changed nodes or balances", txn.FunctionName, h.Label(n.ID()), fmt.Sprint(o.Err)))
+				}
+				st.Class(op + "/dropped")
 				continue
 			}
 			after := nodesOf(t, h)
@@ -180,7 +214,8 @@ func minerPoolHistory(t *testing.T, prop string) {
 			}
 			mine, mineAfter := nb.Pool(sender), na.Pool(sender)
 			if o.Failed {
-				if !reflect.DeepEqual(nb.Pools, na.Pools) || nb.Reward != na.Reward || nb.Killed != na.Killed || nb.PoolDead != na.PoolDead || paid != 0 || scDelta != 0 {
+				if !reflect.DeepEqual(nb.Pools, na.Pools) || nb.Reward != na.Reward || nb.Killed != na.Killed || nb.PoolDead != na.PoolDead || paid != -int64(txn.Fee) || scDelta != int64(txn.Fee) {
+					// (a refused call pays its fee, which goes to the miner contract's wallet, and nothing else)
 					t.Fatalf("%s", viol(prop, "refused-call-changed-something", h, "refused %s on %s: node %v -> %v, sender %+d, contract wallet %+d", txn.FunctionName, h.Label(n.ID()), nb, na, paid, scDelta))
 				}
 				continue
